@@ -50,8 +50,11 @@ def patched(obj, attr, value):
         setattr(obj, attr, old)
 
 
+GRID_OFFSET = 0.4  # grid points (i+0.4)/K never coincide with probabilities that are multiples of 1/K or 1/2K
+
+
 class GridRandom:
-    """numpy proxy: np.random.random() is a choice point over the grid {(i+0.5)/K}; everything else delegates."""
+    """numpy proxy: np.random.random() is a choice point over the grid {(i+0.4)/K}; everything else delegates."""
 
     def __init__(self, chooser, K=8):
         self._ch, self._K = chooser, K
@@ -59,7 +62,7 @@ class GridRandom:
 
     def __call__(self, *a, **k):
         i = self._ch.choose(self._K, "np.random.random", {"K": self._K})
-        return (i + 0.5) / self._K
+        return (i + GRID_OFFSET) / self._K
 
     def __getattr__(self, name):
         if name in ("seed", "rand", "randn", "randint", "choice", "uniform", "normal", "shuffle", "permutation"):
